@@ -1,0 +1,67 @@
+//go:build verif
+
+package limiter
+
+// Verification hooks for property C15 (add-only, compiled only with -tags verif).
+
+import (
+	"net/netip"
+	"sort"
+	"time"
+)
+
+// VerifEntryTtl is the idle time after which gc drops an entry.
+const VerifEntryTtl = entryTtl
+
+// VerifSetDefault returns the options after setDefault.
+func VerifSetDefault(o ClientLimiterOpts) ClientLimiterOpts {
+	o.setDefault()
+	return o
+}
+
+// VerifOpts returns the effective options of a limiter.
+func (cl *ClientLimiter) VerifOpts() ClientLimiterOpts { return cl.opts }
+
+// VerifMask is mask.
+func (cl *ClientLimiter) VerifMask(addr netip.Addr) netip.Addr { return cl.mask(addr) }
+
+// VerifGc runs the real collector (it reads the real clock).
+func (cl *ClientLimiter) VerifGc() { cl.gc() }
+
+// VerifGcAt is gc with a caller-supplied clock (virtual time). It repeats the loop of gc with
+// time.Now() replaced by now; gc itself is cross-checked through VerifGc.
+func (cl *ClientLimiter) VerifGcAt(now time.Time) {
+	ddl := now.Add(-entryTtl)
+	cl.m.Range(func(key netip.Addr, value *e) bool {
+		value.m.Lock()
+		lastSeen := value.lastSeen
+		value.m.Unlock()
+		if lastSeen.Before(ddl) {
+			cl.m.Delete(key)
+		}
+		return true
+	})
+}
+
+// VerifKeys returns the keys of the table, sorted.
+func (cl *ClientLimiter) VerifKeys() []netip.Addr {
+	var ks []netip.Addr
+	cl.m.Range(func(key netip.Addr, _ *e) bool {
+		ks = append(ks, key)
+		return true
+	})
+	sort.Slice(ks, func(i, j int) bool { return ks[i].Compare(ks[j]) < 0 })
+	return ks
+}
+
+// VerifTokensAt returns the float64 token count the bucket of addr would have at now
+// (statistics only: how close a decision was to the threshold).
+func (cl *ClientLimiter) VerifTokensAt(addr netip.Addr, now time.Time) (float64, bool) {
+	v, ok := cl.m.Load(cl.mask(addr))
+	if !ok {
+		return float64(cl.opts.Burst), false
+	}
+	v.m.Lock()
+	defer v.m.Unlock()
+	return v.l.TokensAt(now), true
+}
